@@ -23,6 +23,7 @@ type SpecScope struct {
 	pkg     *types.Package
 	results []*Value
 	locals  func(name string, st *State) *Value
+	addrOf  func(name string, st *State) *Value // &local for boxed (address-taken) locals
 	parent  *SpecScope
 }
 
@@ -96,6 +97,18 @@ func (x *Exec) loopScope(st *State, n ast.Node, extra *SpecScope) *SpecScope {
 		}
 	}
 	inner := f.pkg.Scope().Innermost(n.Pos())
+	sc.addrOf = func(name string, st *State) *Value {
+		for s := inner; s != nil; s = s.Parent() {
+			if o := s.Lookup(name); o != nil {
+				if v, ok := o.(*types.Var); ok && f.boxed[v] {
+					if val, inEnv := st.env[v]; inEnv && val.P != nil {
+						return &Value{T: types.NewPointer(v.Type()), P: val.P}
+					}
+				}
+			}
+		}
+		return nil
+	}
 	sc.locals = func(name string, st *State) *Value {
 		// body scope of the loop first (for range vars), then outward
 		for s := inner; s != nil; s = s.Parent() {
@@ -166,6 +179,16 @@ func (x *Exec) evalSpec(e ast.Expr, sc *SpecScope, st *State) *Value {
 	case *ast.Ident:
 		return x.specIdent(e.Name, sc, st)
 	case *ast.UnaryExpr:
+		if id, ok := e.X.(*ast.Ident); ok && e.Op == token.AND {
+			for s := sc; s != nil; s = s.parent {
+				if s.addrOf != nil {
+					if v := s.addrOf(id.Name, st); v != nil {
+						return v
+					}
+				}
+			}
+			panic(engErr("&%s: not an address-taken local in contract", id.Name))
+		}
 		v := x.evalSpec(e.X, sc, st)
 		switch e.Op {
 		case token.NOT:
@@ -289,7 +312,22 @@ func (x *Exec) specIdent(name string, sc *SpecScope, st *State) *Value {
 
 func (x *Exec) specFieldPtr(p *Pointer, t types.Type, name string) (*Pointer, types.Type) {
 	if p.Idx != nil {
-		panic(engErr("field of array element in contract"))
+		// field of a struct element of an array/slice (stored field-wise)
+		if len(p.Path) != 0 {
+			panic(engErr("field of array element inside a struct in contract"))
+		}
+		fs, key := x.fieldsOf(t)
+		for _, f := range fs {
+			if f.Name == name {
+				np := &Pointer{Base: p.Base, Idx: p.Idx, ArrT: p.ArrT, OwnerKey: p.OwnerKey}
+				if len(p.EPath) == 0 {
+					np.OwnerKey = key
+				}
+				np.EPath = append(append([]string{}, p.EPath...), f.Name)
+				return np, f.T
+			}
+		}
+		panic(engErr("type %s has no field %s", t, name))
 	}
 	if o, q := x.eng.override(t); o != nil {
 		for i, f := range o.Fields {
@@ -494,10 +532,15 @@ func (x *Exec) specBinary(e *ast.BinaryExpr, sc *SpecScope, st *State) *Value {
 		}
 	}
 	if lt.S.K == KBV {
+		// signedness comes from whichever operand carries a sized integer type (a literal has none)
 		signed := false
-		if l.T != nil {
-			if ii, ok := intTypeInfo(l.T); ok {
-				signed = ii.signed
+		found := false
+		for _, o := range []*Value{l, r} {
+			if o.T != nil && !found {
+				if ii, ok := intTypeInfo(o.T); ok && ii.w > 0 {
+					signed = ii.signed
+					found = true
+				}
 			}
 		}
 		pre := "bvu"
@@ -750,6 +793,39 @@ func (x *Exec) specCall(e *ast.CallExpr, sc *SpecScope, st *State) *Value {
 		}
 		et := types.Unalias(v.T).Underlying().(*types.Slice).Elem()
 		return &Value{Tm: x.sliceContents(st, v.Tm, x.sortOf(et), et)}
+	case "lebits":
+		// lebits(arr, lo, n): bits lo .. lo+n-1 of the little-endian byte array arr (a [N]byte value in
+		// bv mode), zero-extended to 64 bits
+		v := arg(0)
+		lo, ok1 := x.evalSpec(e.Args[1], sc, st).Tm, true
+		nn := x.evalSpec(e.Args[2], sc, st).Tm
+		if !ok1 || !lo.IsLit() || !nn.IsLit() || v.Tm == nil || v.Tm.S.K != KArr || v.Tm.S.Rng.K != KBV || v.Tm.S.Rng.W != 8 {
+			panic(engErr("lebits(bytearray, lo, n) expects a byte array in bv mode and literal bounds"))
+		}
+		l, n := int(lo.Int.Int64()), int(nn.Int.Int64())
+		if n <= 0 || n > 64 {
+			panic(engErr("lebits: 1 <= n <= 64"))
+		}
+		first, last := l/8, (l+n-1)/8
+		var cat *Term
+		for k := first; k <= last; k++ {
+			var idx *Term = IntLit(int64(k))
+			if v.Tm.S.Dom.K == KBV {
+				idx = BVLit(big.NewInt(int64(k)), v.Tm.S.Dom.W)
+			}
+			b := Select(v.Tm, idx)
+			if cat == nil {
+				cat = b
+			} else {
+				cat = mk("concat", "", BVS(cat.S.W+8), nil, b, cat)
+			}
+		}
+		sh := l % 8
+		ex := mk(fmt.Sprintf("(_ extract %d %d)", sh+n-1, sh), "", BVS(n), nil, cat)
+		if n < 64 {
+			ex = mk(fmt.Sprintf("(_ zero_extend %d)", 64-n), "", BVS(64), nil, ex)
+		}
+		return &Value{T: types.Typ[types.Int64], Tm: ex}
 	case "felems":
 		// felems(s, f): the array (index -> value of field f) behind a slice of struct values
 		v := arg(0)
